@@ -182,16 +182,17 @@ def rule_kinds(ctx):
 
 def rule_inloop(ctx):
     p = ctx.p
-    loops = [(fi, wh) for fi, wh in receive_loops(p) if fi.module.name.startswith("indi.transport.client")]
+    loops = [L for L in receive_loops(p) if (L.owner.module if L.owner is not None else L[0].module).name.startswith("indi.transport.client")]
     ctx.floor("C15.INLOOP", "client receive loops", len(loops), 1)
-    for fi, wh in loops:
-        ci = fi.cls
+    for L in loops:
+        fi, wh = L
+        ci = L.owner
         consumer = None
         for n_ in ast.walk(wh):
             if isinstance(n_, ast.Call) and isinstance(n_.func, ast.Attribute) and n_.func.attr == "process" and n_.args and isinstance(n_.args[0], ast.Attribute):
-                consumer = ci.find_method(n_.args[0].attr)
+                consumer = ci.find_method(n_.args[0].attr) if ci is not None else None
         if consumer is None:
-            ctx.undecided("C15.INLOOP", fi.short, "consumer not resolved", fi=fi)
+            ctx.undecided("C15.INLOOP", L.short, "consumer not resolved", fi=fi)
             continue
 
         def raiser(ev):
@@ -199,7 +200,7 @@ def rule_inloop(ctx):
                 return "Exception"
             return None
 
-        paths = run_method(p, consumer, opts={"call_may_raise": raiser})
+        paths = run_method(p, consumer, self_val=L.self_val, opts={"call_may_raise": raiser, "inline": lambda fi_, node, _n=consumer.name: fi_.name == _n})
         called = any(any(show(e.data["term"]).startswith("self.callback(message") for e in pa.events if e.kind == "call") for pa in paths)
         esc = [pa for pa in paths if pa.outcome == "raise"]
         ctx.check(called and not esc, "C15.INLOOP", consumer.short, "application callback errors are contained per message", "an exception from processing one server message escapes into the receive loop, whose task then dies silently: the client stops receiving" if called else "the per-message entry does not call the application callback with the message", fi=consumer, text="containment")
